@@ -67,7 +67,7 @@ func c19GroupOf(q *UpQuery) int {
 }
 
 func TestVfC19Prefetch(t *testing.T) {
-	st := vfkit.Stats("TestVfC19Prefetch", "runs of 20-80 independent names: TTL in {6,8,10,12} s, entries primed for 1-3 client groups, then a burst of 1-120 concurrent hits per group (from 1, 2 or 4 client addresses of the group) at a drawn instant inside the last quarter of the lifetime; the upstream holds the refresh reply until all burst responses are collected (or 3 s), then the refresh ends as success (new TTL) / success answered only after the old entry expired / NOERROR-NODATA / NXDOMAIN / SERVFAIL / REFUSED / garbage / silence / connection closed, over a UDP or a TCP upstream (where transport errors are immediate); oracles: every hit of the burst is answered from the old entry while the refresh is held, exactly one refresh per group is started and in flight, after a successful refresh later hits carry the new fetch (without a further upstream query when the reply came after the old expiry), after a failed or negative refresh the old entry is served until its expiry and not 2 s beyond, and a further hit in the window starts a new refresh (the reservation ended with the refresh); non-trivial = burst >= 2 inside the window")
+	st := vfkit.Stats("TestVfC19Prefetch", "runs of 20-80 independent names: TTL in {6,8,10,12} s, entries primed for 1-3 client groups, then a burst of 1-120 concurrent hits per group (from 1, 2 or 4 client addresses of the group) at a drawn instant inside the last quarter of the lifetime; the upstream holds the refresh reply until all burst responses are collected (or 3 s), then the refresh ends as success (new TTL 30 / 60 s, or 1 / 2 s, i.e. less than what is left of the old entry) / success answered only after the old entry expired / NOERROR-NODATA / NXDOMAIN / SERVFAIL / REFUSED / garbage / silence / connection closed, over a UDP or a TCP upstream (where transport errors are immediate); oracles: every hit of the burst is answered from the old entry while the refresh is held, exactly one refresh per group is started and in flight, after a successful refresh later hits carry the new fetch (without a further upstream query when the reply came after the old expiry), after a failed or negative refresh the old entry is served until its expiry and not 2 s beyond, and a further hit in the window starts a new refresh (the reservation ended with the refresh); non-trivial = burst >= 2 inside the window")
 	defer vfkit.Flush()
 	block := NextIPBlock()
 	var names sync.Map
@@ -183,6 +183,10 @@ func TestVfC19Prefetch(t *testing.T) {
 			n.outcome = rapid.SampledFrom([]string{"success", "success", "slow-success", "nodata", "nxdomain", "servfail", "refused", "garbage", "silence", "conn-closed"}).Draw(t, "outcome")
 			n.viaTCP = rapid.Bool().Draw(t, "viaTCP")
 			n.newTTL = rapid.SampledFrom([]uint32{30, 60}).Draw(t, "newTTL")
+			if n.outcome == "success" && rapid.IntRange(0, 2).Draw(t, "shortRefresh") == 0 {
+				// the refreshed answer lives shorter than what is left of the old entry: it still replaces it
+				n.newTTL = rapid.SampledFrom([]uint32{1, 2}).Draw(t, "shortTTL")
+			}
 			all[i] = n
 			names.Store(n.label, n)
 		}
@@ -518,6 +522,9 @@ func TestVfC19Prefetch(t *testing.T) {
 		outcomes := map[string]int{}
 		for _, n := range all {
 			outcomes[n.outcome]++
+			if n.outcome == "success" && n.newTTL <= 2 {
+				outcomes["success-with-ttl-below-the-old-remainder"]++
+			}
 		}
 		for k, v := range outcomes {
 			st.Class("outcome="+k, v)
